@@ -210,7 +210,11 @@ def st_js_case(draw):
     if use_lit:
         t = lit_text(content, qc)
         q2['items'] = q2['items'] + [{'k': 'expr', 'e': {'py': t, 'js': t, 'name': None, 'ty': 'str'}}]
-    head, clauses = qgen.render_clauses(q2, 'js', K)
+    q3 = copy.deepcopy(q2)
+    if q3.get('top') and draw(st.booleans()):
+        q3['top']['form'] = 'LIMIT' if q3['top']['form'] == 'TOP' else 'TOP'
+        kinds.add('top<->limit')
+    head, clauses = qgen.render_clauses(q3, 'js', K)
     if len(clauses) > 1 and draw(st.booleans()):
         clauses = [clauses[i] for i in draw(st.permutations(list(range(len(clauses)))))]
         kinds.add('clause-order')
